@@ -325,6 +325,7 @@ func C01(e *Env) {
 	}
 	run.Obs("sentinel_objects", len(sentinelBefore))
 	c01AB(e, base, root, paths)
+	c01NamedRoots(e, base)
 	c01Strace(e, base, root, paths)
 }
 
@@ -708,4 +709,101 @@ func unescapeStrace(s string) string {
 		}
 	}
 	return b.String()
+}
+
+
+// c01NamedRoots: "all spellings of the root" includes its *name*. The served root is itself called
+// PS3ISO / ps3iso / REDKEY / GAMES, and the directories the key lookup knows by name (REDKEY, PS3ISO)
+// and key files for the images inside exist *beside* the root. The implicit key lookup must stay
+// inside: (1) no name outside the root reaches the file-system layer, (2) the answers for the images —
+// including the bytes of sectors that a key would decrypt — do not change when only the outside changes.
+func c01NamedRoots(e *Env, base string) {
+	run := e.Run
+	key := tree.Content(901, 16)
+	other := tree.Content(902, 16)
+	plain := tree.Content(903, 12*2048)
+	regs := []refcrypt.Region{{Start: 0, End: 1}, {Start: 4, End: 9}}
+	copy(plain, refcrypt.Table(regs))
+	img := refcrypt.BuildImage(plain, regs, key)
+	hexKey := func(k []byte) []byte { return []byte(hex.EncodeToString(k)) }
+	for _, rn := range []string{"PS3ISO", "ps3iso", "REDKEY", "GAMES", "Ps3Iso"} {
+		par := filepath.Join(base, "named", rn+"-parent")
+		root := filepath.Join(par, rn)
+		for _, f := range []string{"img.iso", "sub/img.iso", "PS3ISO/in.iso", "PS3ISO/nokey.iso", "ps3iso/deep/img.iso"} {
+			must(os.MkdirAll(filepath.Dir(filepath.Join(root, f)), 0o755))
+			must(os.WriteFile(filepath.Join(root, f), img, 0o644))
+		}
+		must(os.MkdirAll(filepath.Join(root, "REDKEY"), 0o755))
+		must(os.WriteFile(filepath.Join(root, "REDKEY", "in.dkey"), hexKey(key), 0o644)) // a key that does apply, inside
+		outside := func(k []byte) {
+			for _, f := range []string{"img.dkey", "REDKEY/img.dkey", "REDKEY/sub/img.dkey", "REDKEY/nokey.dkey", "REDKEY/in.dkey", "REDKEY/deep/img.dkey", "PS3ISO/img.dkey", "sub/img.dkey", "REDKEY/" + rn + "/img.dkey", "REDKEY/" + rn + "/sub/img.dkey"} {
+				must(os.MkdirAll(filepath.Dir(filepath.Join(par, f)), 0o755))
+				if k == nil {
+					os.Remove(filepath.Join(par, f))
+				} else {
+					must(os.WriteFile(filepath.Join(par, f), k, 0o644))
+				}
+			}
+		}
+		stream := func(addr string) map[string][]byte {
+			out := map[string][]byte{}
+			for _, im := range []string{"/img.iso", "/sub/img.iso", "/PS3ISO/in.iso", "/PS3ISO/nokey.iso", "/ps3iso/deep/img.iso", "img.iso", "/./img.iso"} {
+				c, err := wire.Dial(addr, nil, e.Watchdog)
+				if err != nil {
+					continue
+				}
+				var all []byte
+				for _, r := range []wire.Req{wire.P(wire.OpStat, im), wire.P(wire.OpOpen, im), wire.Read(2048, 0), wire.Read(3*2048, 2*2048-100), wire.Read(70000, 0)} {
+					if c.Send(r) != nil {
+						break
+					}
+					b, st := readResponse(c, r, -1)
+					all = append(append(all, maskTimes(r.Op, b)...), byte(st))
+					if st != wire.Full {
+						break
+					}
+				}
+				c.Close()
+				out[im] = all
+				run.Eval(1)
+			}
+			return out
+		}
+		p := e.Worker(worker.Config{Root: root, BufSize: 65536}, "c01-named-"+rn, false, 0)
+		addr := p.HostPort()
+		outside(hexKey(key)) // the right key waits outside
+		a := stream(addr)
+		outside(hexKey(other)) // another key
+		b := stream(addr)
+		outside([]byte("not a key"))
+		c := stream(addr)
+		outside(nil)
+		d := stream(addr)
+		n := 0
+		for im, ref := range d {
+			for vi, got := range []map[string][]byte{a, b, c} {
+				if !bytes.Equal(got[im], ref) && n < 4 {
+					n++
+					run.Violate("depends-on-outside", "root-named-"+rn, fmt.Sprintf("served root is called %q: the answers for %q (STAT, OPEN, reads reaching sectors a key would decrypt) change with key files that only exist beside the root (%s)", rn, im, []string{"the image's key", "another key", "rubbish"}[vi]), map[string]any{"root": root, "image": im})
+				}
+			}
+		}
+		rep, err := p.Do(worker.Cmd{Cmd: "report"})
+		if err == nil && rep.Report != nil {
+			run.Count("os_level_paths_audited", int64(rep.Report.Paths))
+			for i, esc := range rep.Report.Escapes {
+				if i >= 4 {
+					break
+				}
+				run.Violate("os-path-outside-root", "root-named-"+rn, fmt.Sprintf("served root is called %q: a path outside the root reached the file-system layer: %s", rn, strings.TrimPrefix(esc, base)), map[string]any{"path": esc, "root": root})
+			}
+		}
+		// control: the key inside the root does apply (otherwise this scenario would observe nothing)
+		if want := plain[4096 : 4096+16]; !bytes.Contains(d["/PS3ISO/in.iso"], want) {
+			run.Inconclusive(fmt.Sprintf("named root %q: the image with a key inside the root was not served decrypted; the scenario observes nothing", rn))
+		}
+		run.Sig("root named %s: key lookup with look-alike directories beside the root", rn)
+		CrashCheck(e, p, "c01 named-root worker", nil)
+		p.Stop()
+	}
 }
